@@ -119,6 +119,9 @@ pub struct World {
     pub faucets_done: Vec<Transaction>,
     pub profile: Profile,
     pub allow_faucet_liq: bool,
+    /// deposits prefer equal / perfect-square amounts and repeat the previous deposit's pool
+    pub twin_deposits: bool,
+    pub last_deposit: Option<(PoolKey, u128, u128)>,
     pub dead: bool,
     pub origin: String,
 }
@@ -170,6 +173,8 @@ impl World {
             faucets_done: vec![],
             profile: Profile::default(),
             allow_faucet_liq: false,
+            twin_deposits: false,
+            last_deposit: None,
             dead: false,
             origin,
         };
@@ -815,7 +820,12 @@ impl World {
                 cands.push(k);
             }
         }
-        let key = *self.rng.pick(&cands);
+        let mut key = *self.rng.pick(&cands);
+        if self.twin_deposits && self.rng.chance(2, 3) {
+            if let Some((k, _, _)) = self.last_deposit {
+                key = k;
+            }
+        }
         let sp = self.spendable();
         let lmax = sp.iter().filter(|(_, c)| c.coin_data.denom == key.left()).map(|(_, c)| c.coin_data.value.0).max().unwrap_or(0);
         let rmax = sp.iter().filter(|(_, c)| c.coin_data.denom == key.right()).map(|(_, c)| c.coin_data.value.0).max().unwrap_or(0);
@@ -832,8 +842,33 @@ impl World {
         if la < 2 || ra < 2 {
             return None;
         }
-        let lv = self.amount((la / 2).min(MAX_COINVAL));
-        let rv = self.amount((ra / 2).min(MAX_COINVAL));
+        let mut lv = self.amount((la / 2).min(MAX_COINVAL));
+        let mut rv = self.amount((ra / 2).min(MAX_COINVAL));
+        if self.twin_deposits {
+            // equal, perfect-square or repeated amounts: the cases in which truncated square roots matter
+            match self.rng.below(4) {
+                0 => {
+                    if let Some((k, l, r)) = self.last_deposit {
+                        if k == key && l <= la / 2 && r <= ra / 2 {
+                            lv = l;
+                            rv = r;
+                        }
+                    }
+                }
+                1 => {
+                    let root = (lv as f64).sqrt() as u128;
+                    lv = (root * root).max(1).min(la / 2);
+                    let root = (rv as f64).sqrt() as u128;
+                    rv = (root * root).max(1).min(ra / 2);
+                }
+                2 => {
+                    lv = lv.min(rv).max(1);
+                    rv = lv.min(ra / 2).max(1);
+                }
+                _ => {}
+            }
+            self.last_deposit = Some((key, lv, rv));
+        }
         let covhash = {
             let o = self.rng.usize(self.owners.len());
             self.owners[o].addr_new
